@@ -18,12 +18,13 @@ static void pAI(const ArticulatedInertia& P) {
     std::printf(" %a %a %a %a %a %a", J(0,0), J(1,1), J(2,2), J(1,0), J(2,0), J(2,1));
 }
 
-static void emit(RandSystem& rs, Force::DiscreteForces& df, Rng& r, bool zeroU) {
+static void emit(RandSystem& rs, Force::DiscreteForces& df, Rng& r, bool zeroU, bool lone) {
     State& s = rs.state; const SimbodyMatterSubsystem& m = rs.matter;
     if (zeroU) s.updU() = 0;
     rs.sys.realize(s, Stage::Velocity);
     int nu = s.getNU(), NB = m.getNumBodies();
     dumpTreeData(rs, s);
+    if (lone) std::printf("LONE\n");
     pvec("U", s.getU());
     Vector UD(nu), MF(nu); for (int i = 0; i < nu; ++i) { UD[i] = r.U(-1, 1); MF[i] = r.U(-2, 2); }
     pvec("UD", UD); pvec("MF", MF);
@@ -58,6 +59,24 @@ static void emit(RandSystem& rs, Force::DiscreteForces& df, Rng& r, bool zeroU) 
         for (MobilizedBodyIndex b(0); b < NB; ++b) { std::printf("OUT ZP %d", (int)b); psv(tac.zPlus[b]); std::printf("\n"); }
         pvec("OUT EPS", tac.epsilon);
     }
+    // internal articulated-body quantities of realizeArticulatedBodyInertiasInward: D = ~H P H, DI, G = P H DI, PPlus.
+    // D/DI live in storageForD/DI at the node's uSq slot (slots are handed out in mobilized-body order: sum of dof^2 of the
+    // earlier bodies), G at 2*uIndex.  RBNodeLoneParticle does not fill them: skipped for lone-particle systems.
+    if (!lone) {
+        const SBArticulatedBodyInertiaCache& abc = m.getRep().getArticulatedBodyInertiaCache(s);
+        int sq = 0;
+        for (MobilizedBodyIndex b(1); b < NB; ++b) {
+            const MobilizedBody& mb = m.getMobilizedBody(b); int n = mb.getNumU(s);
+            if (n > 0) {
+                int u0 = (int)mb.getFirstUIndex(s);
+                std::printf("OUT DMAT %d", (int)b); for (int i = 0; i < n; ++i) for (int j = 0; j < n; ++j) std::printf(" %a", abc.storageForD[sq + j * n + i]); std::printf("\n");
+                std::printf("OUT DIMAT %d", (int)b); for (int i = 0; i < n; ++i) for (int j = 0; j < n; ++j) std::printf(" %a", abc.storageForDI[sq + j * n + i]); std::printf("\n");
+                std::printf("OUT GMAT %d", (int)b); for (int k = 0; k < n; ++k) psv(SpatialVec(abc.storageForG[2 * (u0 + k)], abc.storageForG[2 * (u0 + k) + 1])); std::printf("\n");
+            }
+            sq += n * n;
+            std::printf("OUT PPLUS %d", (int)b); pAI(abc.pPlus[b]); std::printf("\n");
+        }
+    }
     // the property's own predicate on the implementation: inverse dynamics of the forward-dynamics result
     Vector r2; m.calcResidualForceIgnoringConstraints(s, MF, FB, udot, r2); pvec("OUT IDFD", r2);
     std::printf("END\n");
@@ -71,7 +90,7 @@ int main(int argc, char** argv) {
             RandSystem rs; Force::DiscreteForces df(rs.forces, rs.matter);
             int nb = r.I(1, maxb); int shape = r.I(0, 2);
             try { rs.build(r, nb, shape); } catch (const std::exception& e) { std::printf("SKIP %s\n", e.what()); continue; }
-            try { emit(rs, df, r, k % 4 == 3); } catch (const std::exception& e) { std::printf("SKIP %s\n", e.what()); }
+            try { emit(rs, df, r, k % 4 == 3, false); } catch (const std::exception& e) { std::printf("SKIP %s\n", e.what()); }
         }
         if (k % 5 == 4) {   // lone particles next to an ordinary branch
             RandSystem rs; Force::DiscreteForces df(rs.forces, rs.matter);
@@ -83,7 +102,7 @@ int main(int argc, char** argv) {
                     rs.types.push_back(10); rs.revs.push_back(false);
                 }
                 rs.build(r, 1, 0);   // one ordinary body on Ground (build()'s chain numbering assumes it adds the first body)
-                emit(rs, df, r, false);
+                emit(rs, df, r, false, true);
             } catch (const std::exception& e) { std::printf("SKIP %s\n", e.what()); }
         }
     }
